@@ -3,6 +3,7 @@ package c10
 import (
 	"encoding/json"
 	"fmt"
+	"math"
 	"math/rand"
 	"strings"
 	"testing"
@@ -111,6 +112,28 @@ func genCount(t *rapid.T, n int, label string) int {
 	return size(t, label, 1, n)
 }
 
+// genSeed draws a seed over the whole int64 range with a bias to the borders; never -1, which the
+// command line documents as "nano seconds since 1970" (rand.Seed itself accepts any int64)
+func genSeed(t *rapid.T) int64 {
+	var s int64
+	switch rapid.IntRange(0, 5).Draw(t, "seed_k") {
+	case 0:
+		s = rapid.SampledFrom([]int64{0, 1, -2, -12345, math.MinInt64, math.MaxInt64, math.MinInt64 + 1, 1 << 31, 1<<31 - 1, -(1 << 31), 1 << 32, 1<<32 + 7, -(1 << 32) - 7, -987654321}).Draw(t, "seed_special")
+	case 1:
+		s = rapid.Int64Range(-1000, 1000).Draw(t, "seed_small")
+	case 2:
+		s = rapid.Int64Range(math.MinInt64, -2).Draw(t, "seed_negative")
+	case 3:
+		s = rapid.Int64Range(1<<40, math.MaxInt64).Draw(t, "seed_huge")
+	default:
+		s = rapid.Int64().Draw(t, "seed")
+	}
+	if s == -1 {
+		s = -2
+	}
+	return s
+}
+
 // genRate draws from {0, eps, max/3, max/2, max-eps, max} + uniform + k/den, and (if out) values
 // outside [0,max]
 func genRate(t *rapid.T, label string, max float64, den int, out bool) float64 {
@@ -144,7 +167,7 @@ func genRate(t *rapid.T, label string, max float64, den int, out bool) float64 {
 func genOpCase(t *rapid.T) opCase {
 	var c opCase
 	c.Op = allOps[rapid.IntRange(0, 1<<20).Draw(t, "op")%len(allOps)]
-	c.Seed = rapid.Int64().Draw(t, "seed")
+	c.Seed = genSeed(t)
 	alphabet := rapid.SampledFrom([]string{"nt", "aa"}).Draw(t, "alphabet")
 	maxRows, maxLen := 8, 20
 	if strings.HasSuffix(c.Op, "-bag") {
@@ -339,6 +362,22 @@ func isNilBag(a align.SeqBag) (isnil bool) {
 	return false
 }
 
+func seedClass(s int64) string {
+	switch {
+	case s == 0:
+		return "seed=0"
+	case s == math.MinInt64 || s == math.MaxInt64:
+		return "seed=int64 border"
+	case s < -(1 << 32):
+		return "seed<-2^32"
+	case s < 0:
+		return "seed negative"
+	case s >= 1<<32:
+		return "seed>=2^32"
+	}
+	return "seed positive"
+}
+
 func rateClass(x, max float64) string {
 	switch {
 	case x < 0 || x > max:
@@ -404,6 +443,7 @@ func checkOp(c opCase) (o pbt.Outcome, err error) {
 		return nil
 	}
 	o.Class("op=%s", c.Op)
+	o.Class(seedClass(c.Seed))
 	o.Class("mode=%s", c.Mode)
 	switch c.Op {
 	case "shuffle-seqs", "shuffle-seqs-bag":
